@@ -288,6 +288,49 @@ fn gen_op(t: &mut Trace, rng: &mut Rng, g: &mut Gen) {
     // an op on a token
     let mut id = g.pick_id(rng);
     let owner = g.s.owner_of(id);
+    // a third-party move: the owner (or nobody yet) delegates to a spender that is NOT the owner
+    // — per-token approval or operator — and the spender transfers / burns the token. The
+    // spender is picked by its own holdings: none, exactly one, several tokens.
+    if let Some(o) = owner.filter(|&o| o < N) {
+        if rng.chance(22) {
+            let others: Vec<usize> = (0..N).filter(|&p| p != o).collect();
+            let want = rng.below(3);
+            let by_holdings: Vec<usize> = others
+                .iter()
+                .cloned()
+                .filter(|&p| {
+                    let b = g.s.bal(p);
+                    match want {
+                        0 => b == 0,
+                        1 => b == 1,
+                        _ => b >= 2,
+                    }
+                })
+                .collect();
+            let sp = if by_holdings.is_empty() { *rng.pick(&others) } else { *rng.pick(&by_holdings) };
+            let lu = g.s.now + 50 + rng.below(100) as u32;
+            let granted = if rng.chance(50) {
+                g.run(t, rng, "approve", &[o, sp], id, 0, lu, &[o])
+            } else if g.s.is_operator(o, sp) {
+                true
+            } else {
+                g.run(t, rng, "approve_for_all", &[o, sp], 0, 0, lu, &[o])
+            };
+            if granted {
+                if rng.chance(50) {
+                    g.run(t, rng, "burn_from", &[sp, o], id, 0, 0, &[sp]);
+                } else {
+                    let to = match rng.below(4) {
+                        0 => sp,
+                        1 => o,
+                        _ => person(rng),
+                    };
+                    g.run(t, rng, "transfer_from", &[sp, o, to], id, 0, 0, &[sp]);
+                }
+            }
+            return;
+        }
+    }
     let valid = rng.chance(75);
     let frm = match owner {
         Some(o) if o < N && valid => o,
@@ -427,6 +470,41 @@ fn directed(t: &mut Trace, rng: &mut Rng) {
     g.run(t, rng, "mint", &[2], 0, 0, 0, &[]);
     g.run(t, rng, "mint", &[3], 0, 0, 0, &[]); // the counter reaches the explicit id
     g.run(t, rng, "transfer", &[3, 4], 2, 0, 0, &[3]);
+
+    // ---- third-party burn_from / transfer_from (approved account, operator) with the spender
+    // holding 0, 1 and several tokens and the owner holding several; first / middle / last
+    // entry of the owner's list (round 2 seed 1: `Enumerable::burn_from` edited the SPENDER's list)
+    for fl in [Flavour::Enum, Flavour::Seq, Flavour::Cons] {
+        let mut g = Gen::new(fl, 1, 100, true);
+        t.seq(&g.s.label("directed third-party burn_from and transfer_from"));
+        if fl == Flavour::Cons {
+            g.run(t, rng, "batch_mint", &[0], 0, 5, 0, &[]);
+            g.run(t, rng, "batch_mint", &[2], 0, 1, 0, &[]);
+            g.run(t, rng, "batch_mint", &[3], 0, 3, 0, &[]);
+        } else {
+            for to in [0usize, 0, 0, 0, 0, 2, 3, 3, 3] {
+                g.run(t, rng, "mint", &[to], 0, 0, 0, &[]);
+            }
+        }
+        // owner 0 holds 0..=4, account 1 nothing, account 2 one token (5), account 3 three (6,7,8)
+        g.run(t, rng, "approve", &[0, 1], 0, 0, 500, &[0]);
+        g.run(t, rng, "burn_from", &[1, 0], 0, 0, 0, &[1]); // spender with balance 0 burns the owner's FIRST token
+        g.run(t, rng, "approve", &[0, 2], 2, 0, 500, &[0]);
+        g.run(t, rng, "burn_from", &[2, 0], 2, 0, 0, &[2]); // spender with one token, a middle entry
+        g.run(t, rng, "approve_for_all", &[0, 3], 0, 0, 500, &[0]);
+        g.run(t, rng, "burn_from", &[3, 0], 1, 0, 0, &[3]); // operator with three tokens
+        g.run(t, rng, "transfer_from", &[3, 0, 3], 3, 0, 0, &[3]); // operator takes a token for itself
+        g.run(t, rng, "transfer_from", &[3, 0, 1], 4, 0, 0, &[3]); // …and hands the owner's last one to a third account
+        g.run(t, rng, "approve", &[3, 1], 7, 0, 500, &[3]);
+        g.run(t, rng, "burn_from", &[1, 3], 7, 0, 0, &[1]); // spender with one token, middle of a 4-list
+        g.run(t, rng, "approve", &[3, 2], 8, 0, 500, &[3]);
+        g.run(t, rng, "transfer_from", &[2, 3, 0], 8, 0, 0, &[2]);
+        g.run(t, rng, "approve", &[1, 0], 4, 0, 500, &[1]);
+        g.run(t, rng, "burn_from", &[0, 1], 4, 0, 0, &[0]); // the only token of account 1
+        g.run(t, rng, "burn_from", &[2, 3], 6, 0, 0, &[2]); // no approval: rejected
+        g.run(t, rng, "burn", &[3], 6, 0, 0, &[3]);
+        g.run(t, rng, "burn", &[0], 8, 0, 0, &[0]);
+    }
 
     // ---- sequential example
     let mut g = Gen::new(Flavour::Seq, 16, 100, true);
